@@ -214,6 +214,7 @@ def run(
     extra=(),
     dfs=False,
     spec_dir=None,
+    extra_files=None,
 ):
     """Run TLC on spec/<module>.tla with spec/<cfg>.cfg.
 
@@ -228,6 +229,9 @@ def run(
     for f in os.listdir(spec_dir):
         if f.endswith(".tla"):
             shutil.copy(os.path.join(spec_dir, f), run_dir)
+    for fn, content in (extra_files or {}).items():
+        with open(os.path.join(run_dir, fn), "w") as f:
+            f.write(content)
     cfg_src = cfg if os.path.isabs(cfg) else os.path.join(spec_dir, cfg if cfg.endswith(".cfg") else cfg + ".cfg")
     shutil.copy(cfg_src, os.path.join(run_dir, "run.cfg"))
     out_file = os.path.join(run_dir, "out.json")
@@ -310,15 +314,43 @@ def run(
     if bad and not (expect_violation and r.violation):
         tail = "\n".join([l for l in r.stdout.splitlines() if not re.match(r"(Parsing file|Semantic processing|Linting of)", l)][-40:])
         raise MachineryError("TLC failed on %s/%s:\n%s" % (module, cfg, tail))
-    if r.violation and not expect_violation:
-        pass  # caller decides (design-level finding)
+    if not simulate and not r.violation and "Model checking completed" not in r.stdout:
+        tail = "\n".join(r.stdout.splitlines()[-15:])
+        raise MachineryError("TLC did not complete on %s/%s (killed?):\n%s" % (module, cfg, tail))
     return r
 
 
 def _parse_error_trace(out):
+    """[(label, args, state)] from TLC's printed counterexample"""
     tr = []
-    for m in re.finditer(r"^State (\d+): <([^>]*?)(?: line \d+.*?)?>\n((?:/\\ .*\n(?:  .*\n)*)+)", out, re.M):
-        tr.append((m.group(2).strip(), parse_state(m.group(3))))
+    blocks = re.split(r"^State (\d+): ", out, flags=re.M)
+    # blocks = [pre, num, body, num, body ...]
+    for k in range(1, len(blocks) - 1, 2):
+        body = blocks[k + 1]
+        first, _, rest = body.partition("\n")
+        lbl = first.strip()
+        if lbl.startswith("<") and lbl.endswith(">"):
+            lbl = lbl[1:-1]
+        lbl = re.sub(r"\s*line \d+, col \d+ to line \d+, col \d+ of module \w+\s*$", "", lbl).strip()
+        lines = []
+        for ln in rest.split("\n"):
+            if ln.startswith("/\\ ") or ln.startswith("  ") or (lines and ln.strip() and not re.match(r"^\d+ states generated|^Error|^The |^Finished|^State ", ln)):
+                if ln.strip() == "":
+                    break
+                lines.append(ln)
+            elif ln.strip() == "" and lines:
+                break
+        try:
+            st = parse_state("\n".join(lines))
+        except Exception:
+            continue
+        if lbl.lower().startswith("initial predicate"):
+            name, args = "Init", ()
+        elif lbl.lower().startswith("stuttering"):
+            continue
+        else:
+            name, args = parse_action_label(lbl)
+        tr.append((name, args, st))
     return tr
 
 
@@ -337,9 +369,7 @@ def sany(module, spec_dir=None):
 def parse_dot(path):
     """-> (nodes {id: state dict}, edges [(src, dst, (action, args))], init ids)"""
     nodes, edges, inits = {}, [], []
-    node_re = re.compile(r'^(-?\d+) \[label="(.*)"(?:,style = filled)?\];?$')
-    node_re2 = re.compile(r'^(-?\d+) \[label="(.*)",style = filled\]')
-    edge_re = re.compile(r'^(-?\d+) -> (-?\d+) \[label="(.*?)",')
+    edge_re = re.compile(r'^(-?\d+) -> (-?\d+) \[label="(.*)",color=')
     with open(path) as f:
         for line in f:
             line = line.rstrip("\n")
@@ -348,7 +378,7 @@ def parse_dot(path):
                 lbl = m.group(3).replace('\\"', '"').replace("\\\\", "\\")
                 edges.append((m.group(1), m.group(2), parse_action_label(lbl)))
                 continue
-            m = re.match(r'^(-?\d+) \[label="(.*)"(,style = filled)?\];?\s*$', line)
+            m = re.match(r'^(-?\d+) \[label="(.*?)"(?:,tooltip=".*")?(,style = filled)?\];?\s*$', line)
             if m:
                 txt = m.group(2).replace("\\n", "\n").replace('\\"', '"').replace("\\\\", "\\")
                 nodes[m.group(1)] = parse_state(txt)
